@@ -849,6 +849,18 @@ def run(ctx):
             run_float(tid, rng, sysm, p0, kind, "integrate", ["dense", "sparse", "linop"][int(rng.integers(3))],
                       [("u", t0 + float(rng.uniform(1.5, 3.0)))], cbs[int(rng.integers(3))], recs3,
                       stop_at=t0 + float(rng.uniform(0.2, 1.0)))
+    # (e) repeated requests of the integrator, scanned over many request times: the stepper lands one ulp
+    #     beyond a few percent of them, and the repeat must still leave the evolution where it was asked to be
+    for i in range(6 if quick else 12):
+        d = int(rng.integers(2, 5))
+        t0 = float(rng.uniform(-1, 1)) if i % 2 else 0.0
+        sysm = FloatSystem(rng, d, t0)
+        kind = KINDS[i % 2]
+        p0 = rand_state(rng, kind, d)
+        hrep = ["dense", "sparse", "linop", "callable"][i % 4]
+        for t in np.linspace(t0 + 0.01, t0 + 1.0, 100 if quick else 200):
+            tid += 1
+            run_float(tid, rng, sysm, p0, kind, "integrate", hrep, [("u", float(t)), ("u", float(t))], "none", recs3)
     phase("float-drive")
     fails += ctx.validate("C18_Trace", "Trace.cfg", recs3, name="float-relations", ntraces=len({r["tid"] for r in recs3}))
     phase("float-judge")
